@@ -180,7 +180,7 @@ fn grid() -> Vec<ScrollCase> {
         vals.dedup();
         for &t in &vals {
             for &b in &vals {
-                out.push(ScrollCase { model, orient: Orient::ALL[(t as usize + b as usize) % 8], top: t, bottom: b, offset: t ^ b.rotate_left(3), spi_buf: if (t ^ b) % 5 == 0 { Some(2 + (t % 6) as u8) } else { None }, full_size: (t + b) % 3 == 0 });
+                out.push(ScrollCase { model, orient: Orient::ALL[(t as usize + b as usize) % 8], top: t, bottom: b, offset: t ^ b.rotate_left(3), spi_buf: if (t ^ b) % 5 == 0 { Some(2 + (t % 6) as u8) } else { None }, full_size: (t as u32 + b as u32) % 3 == 0 });
             }
         }
     }
